@@ -36,6 +36,7 @@ func compoundCases(prop string) []Mutant {
 	}
 	var cs []struct {
 		ID, Base, File, Old, New, Prop, Note, Expect string
+		Extra                                        []struct{ File, Old, New string }
 	}
 	if json.Unmarshal(b, &cs) != nil {
 		return nil
@@ -45,7 +46,11 @@ func compoundCases(prop string) []Mutant {
 		if c.Prop != prop || c.Expect != "" {
 			continue
 		}
-		out = append(out, Mutant{ID: "compound-" + c.ID, Note: c.Note + " (on top of " + c.Base + ")", Base: c.Base, Prop: c.Prop, Edits: []Edit{{c.File, c.Old, c.New}}})
+		m := Mutant{ID: "compound-" + c.ID, Note: c.Note + " (on top of " + c.Base + ")", Base: c.Base, Prop: c.Prop, Edits: []Edit{{c.File, c.Old, c.New}}}
+		for _, e := range c.Extra {
+			m.Edits = append(m.Edits, Edit{e.File, e.Old, e.New})
+		}
+		out = append(out, m)
 	}
 	return out
 }
